@@ -20,6 +20,10 @@
 //!   8 mode         push: [api(0 try_decode,1 try_next_reader), metadata(0 loaded,1 metadata push decoder), prebuffer(0,1 whole file,2 footer half)]
 //!                  async: [api(0 stream,1 next_row_group), metadata(0 up front,1 fetched), vectored, seed, density]
 //!   9 schedule     push: one supplier decision per NeedsData (cyclic);    10 rebuild flags per row-group boundary
+//!   11 early       push (optional): one decision per Data/reader result (cyclic): ranges pushed although nothing was
+//!                  asked for — between two batches of the same row group, between row groups —
+//!                  0 none, 1 column chunks of another (future) row group, 2 duplicate of the last supply,
+//!                  3 arbitrary ranges, 4 whole file, 5 clear_all_ranges, 6 the chunks of the NEXT row group one by one
 use crate::util::*;
 use arrow_array::builder::{Int32Builder, ListBuilder, StringBuilder};
 use arrow_array::{Array, ArrayRef, BooleanArray, Int32Array, Int64Array, RecordBatch, StringArray, StructArray};
@@ -529,13 +533,22 @@ fn run_push_decoder(f: &FileInfo, a: &Args, o: &Opts) -> PResult<PushRun> {
     d = maybe_rebuild(d, &mut t)?;
     let mut rows = Vec::new();
     let mut calls = 0usize;
+    // ranges supplied EARLY: after a batch / reader was handed out, although the decoder asked for nothing
+    let early = a.get(11).map(to_i64s).unwrap_or_default();
+    let mut nearly = 0usize;
+    let mut last_supply: Vec<Range<u64>> = Vec::new();
+    let rg_chunks = |g: usize| -> Vec<Range<u64>> {
+        if md.num_row_groups() == 0 { return vec![]; }
+        md.row_group(g % md.num_row_groups()).columns().iter().map(|c| { let (s, l) = c.byte_range(); s..s + l }).collect()
+    };
     loop {
         calls += 1;
         if calls > CALL_CAP { t.stall(); break; }
+        let mut early_now = false;
         let need = if api == 0 {
             match d.try_decode()? {
                 DecodeResult::NeedsData(rs) => Some(rs),
-                DecodeResult::Data(b) => { t.data(d.buffered_bytes() as i64, b.num_rows()); digests(&b, &mut rows); None }
+                DecodeResult::Data(b) => { t.data(d.buffered_bytes() as i64, b.num_rows()); digests(&b, &mut rows); early_now = true; None }
                 DecodeResult::Finished => { t.finished(); break; }
             }
         } else {
@@ -547,11 +560,32 @@ fn run_push_decoder(f: &FileInfo, a: &Args, o: &Opts) -> PResult<PushRun> {
                     for b in rd { let b = b.map_err(|e| ParquetError::General(e.to_string()))?; n += b.num_rows(); digests(&b, &mut rows); }
                     t.reader(bb, n);
                     d = maybe_rebuild(d, &mut t)?;
+                    early_now = true;
                     None
                 }
                 DecodeResult::Finished => { t.finished(); break; }
             }
         };
+        if early_now && !early.is_empty() {
+            let e = early[nearly % early.len()];
+            nearly += 1;
+            let (code, par) = (e % 100, (e / 100) as usize);
+            let mut r = Rng::new(0xEA71 ^ ((nearly as u64) << 16) ^ par as u64);
+            let calls_: Vec<Vec<Range<u64>>> = match code {
+                1 => vec![rg_chunks(par)],
+                2 => vec![last_supply.clone()],
+                3 => vec![(0..1 + par % 3).map(|_| { let s = r.below(flen as usize + 1) as u64; s..(s + r.below(300) as u64).min(flen) }).collect()],
+                4 => vec![vec![0..flen]],
+                5 => { if nclear < MAX_CLEARS { nclear += 1; d.clear_all_ranges(); t.clear(d.buffered_bytes() as i64); } vec![] }
+                6 => rg_chunks(par).into_iter().map(|x| vec![x]).collect(),
+                _ => vec![],
+            };
+            for c in calls_ {
+                if c.is_empty() { continue; }
+                if c.len() == 1 && par % 2 == 0 { d.push_range(c[0].clone(), slice(&c[0]))?; } else { d.push_ranges(c.clone(), c.iter().map(slice).collect())?; }
+                t.push(d.buffered_bytes() as i64, &c);
+            }
+        }
         if let Some(rs) = need {
             t.need(d.buffered_bytes() as i64, &rs);
             if rs.is_empty() { t.stall(); break; }
@@ -562,6 +596,7 @@ fn run_push_decoder(f: &FileInfo, a: &Args, o: &Opts) -> PResult<PushRun> {
                 if c.is_empty() { continue; }
                 if c.len() == 1 && nneed % 2 == 0 { d.push_range(c[0].clone(), slice(&c[0]))?; } else { d.push_ranges(c.clone(), c.iter().map(slice).collect())?; }
                 t.push(d.buffered_bytes() as i64, &c);
+                last_supply = c;
             }
         }
     }
@@ -957,7 +992,11 @@ fn gen_push_mode(r: &mut Rng) -> Vec<Group> {
         code + 100 * r.below(1000) as i64
     }).collect();
     let rebuilds: Vec<i64> = match r.below(4) { 0 => vec![0], 1 => vec![1], _ => (0..1 + r.below(4)).map(|_| r.bool() as i64).collect() };
-    vec![gs(&[api, meta, pre]), gs(&decs), gs(&rebuilds)]
+    // early supplies: in half of the schedules ranges are also pushed after Data / reader results
+    let early: Vec<i64> = if r.bool() { vec![] } else {
+        (0..1 + r.below(4)).map(|_| *r.pick(&[0i64, 1, 1, 2, 3, 4, 6, 6, 5]) + 100 * r.below(1000) as i64).collect()
+    };
+    vec![gs(&[api, meta, pre]), gs(&decs), gs(&rebuilds), gs(&early)]
 }
 
 fn tag_of(rc: &Recipe, opts: &[Group], mode: &[Group], what: &str) -> String {
@@ -967,7 +1006,7 @@ fn tag_of(rc: &Recipe, opts: &[Group], mode: &[Group], what: &str) -> String {
         if opts[1] == gs(&[-1i64]) { "" } else { "P" }, if opts[2] == gs(&[-1i64]) { "" } else { "G" },
         if opts[3] == gs(&[-1i64]) { "" } else { "S" }, ["", "F", "FF", "FFF"][(opts[4].len() / 3).min(3)],
         if opts[5].is_empty() && opts[6].is_empty() { "" } else { "L" },
-        to_i64s(&mode[0]).iter().map(|x| x.to_string()).collect::<Vec<_>>().join(""),
+        to_i64s(&mode[0]).iter().map(|x| x.to_string()).collect::<Vec<_>>().join("") + if mode.get(3).map(|g| !g.is_empty()).unwrap_or(false) { "E" } else { "" },
         d.first().map(|x| x % 100).unwrap_or(0))
 }
 
